@@ -112,12 +112,16 @@ impl Monitor for C06 {
     fn run_case(&self, stream: &str, idx: u64, seed: u64, rec: &mut Recorder) {
         if stream.starts_with("v1-") {
             let x = v1_case(stream, idx, seed);
-            judge(&x, rec, "v1");
+            spec::sib::run_v1(&x, idx, 4, |x| judge(x, rec, "v1"));
         } else {
             crate::c02::SCRATCH.with(|b| {
                 let mut b = b.borrow_mut();
                 v2_case(stream, idx, seed, &mut b);
-                judge(&b, rec, "v2");
+                if stream == "v2-ctl" || stream == "v2-dense" {
+                    spec::engine::placed(&b, idx / 3, |x| judge(x, rec, "v2"));
+                } else {
+                    spec::sib::run_v2(&b, idx, 4, |x| judge(x, rec, "v2"));
+                }
             });
         }
     }
